@@ -133,7 +133,28 @@ fn check_stream(mut s: ByteStream, e: &[u8], reads: &[u16], how: &str, st: &mut 
     let mut out = Vec::with_capacity(e.len());
     let mut k = 0usize;
     let mut spins = 0;
+    // one program in three finishes the stream with read_to_end into the buffer that already
+    // holds what the first reads returned (Read::read_to_end APPENDS)
+    let finish_after = if reads.len() % 3 == 2 { Some(reads.len()) } else { None };
     loop {
+        if finish_after == Some(k) && pos < e.len() {
+            let before = out.len();
+            match s.read_to_end(&mut out) {
+                Ok(n) => ensure!(n == e.len() - pos, format!("stream-read-to-end-count-{how}"), "stream ({how}): read_to_end at {pos} reports {n} bytes, {} were left", e.len() - pos),
+                Err(err) => fail!(format!("stream-read-error-{how}"), "stream ({how}): read_to_end at {pos}: {err}"),
+            }
+            ensure!(
+                out.len() == e.len() && out[..before] == e[..before],
+                format!("stream-read-to-end-appends-{how}"),
+                "stream ({how}): read_to_end at {pos} into a buffer holding {before} bytes left {} bytes in it (the {before} bytes already there {})",
+                out.len(),
+                if out.len() >= before && out[..before] == e[..before] { "kept" } else { "overwritten" }
+            );
+            ensure!(out == e, format!("stream-bytes-{how}"), "stream ({how}): read_to_end from {pos} returned foreign bytes");
+            ensure!(s.size_left() == 0 && s.offset() == s.size(), format!("stream-accounting-{how}"), "stream ({how}): after read_to_end offset {} size_left {} size {}", s.offset(), s.size_left(), s.size());
+            st.evals += 1;
+            break;
+        }
         let req = if reads.is_empty() { 4096 } else { reads[k % reads.len()] as usize };
         k += 1;
         let mut buf = vec![0u8; req];
